@@ -4,6 +4,7 @@ use std::rc::Rc;
 
 use rustc_hash::{FxHashMap, FxHashSet};
 
+use crate::add_type_annotation::is_writable;
 use crate::checks::type_checker::check_types;
 use crate::env::Env;
 use crate::eval::load_toplevel_items;
@@ -181,20 +182,24 @@ fn extracted_fun_src(
     body_end: usize,
     params: &[(SymbolName, Option<Type>)],
 ) -> String {
+    // Only write hints for types that have a hint syntax: `Any`
+    // (also nested, e.g. `List<Any>`), `NoValue` and type errors
+    // cannot be written, so the signature omits them.
     let return_signature = match return_ty {
         Some(Type::Any) | None => "".to_owned(),
         Some(Type::Error { inferred_type, .. }) => match inferred_type {
-            Some(ty) => format!(": {ty}"),
-            None => "".to_owned(),
+            Some(ty) if is_writable(ty) => format!(": {ty}"),
+            _ => "".to_owned(),
         },
-        Some(ty) => format!(": {ty}"),
+        Some(ty) if is_writable(ty) => format!(": {ty}"),
+        Some(_) => "".to_owned(),
     };
 
     let params_signature = params
         .iter()
         .map(|(param, ty)| match ty {
-            Some(ty) => format!("{}: {}", param.text, ty),
-            None => param.text.to_owned(),
+            Some(ty) if is_writable(ty) => format!("{}: {}", param.text, ty),
+            _ => param.text.to_owned(),
         })
         .collect::<Vec<_>>()
         .join(", ");
